@@ -46,4 +46,265 @@ def roundTrip (cfg : Config) (txt : String) : M (String × Circuit × Bool × Bo
   let t2 ← gen c2
   pure (t, c2, circuitEq c c2, t2 == t)
 
+/-! ## The three layers of the round trip, executable
+
+`toks c` is the generator at token level: the tokens (without positions) of the text `gen c` writes.
+`unbuild c` is the S-expression the parser returns for that text.
+`printable c` says that every slot of `c` holds something Jaqal has syntax for (the shape of every circuit
+the builder makes from a parser S-expression). -/
+
+open Jaqal.Lexer
+
+/-- a name or an integer: `let_or_int` -/
+def refTok : Val → Tok
+  | .int i => .INT i
+  | .const n _ => .IDENTIFIER n
+  | .param n _ => .IDENTIFIER n
+  | _ => .NL
+
+def refSx : Val → Sx
+  | .int i => .int i
+  | .const n _ => .str n
+  | .param n _ => .str n
+  | _ => .none
+
+def okRef : Val → Bool
+  | .int _ => true
+  | .const _ _ => true
+  | .param _ _ => true
+  | _ => false
+
+/-- `.name` when there is one -/
+def nameOf (v : Val) : String := (v.name?).getD ""
+
+/-- is this qubit an element `arr[idx]` written in place (its name is the one `make_item_name` gives)? -/
+def isItem (n : String) (src idx : Val) : Bool :=
+  match src.name? with
+  | some an => okRef idx && Builder.itemName an idx == some n
+  | Option.none => false
+
+/-- a gate argument -/
+def argToks : Val → List Tok
+  | .int i => [.INT i]
+  | .flt d => [.NUMBER d]
+  | .qubit n src idx =>
+    if isItem n src idx then [.IDENTIFIER (nameOf src), .lbrack, refTok idx, .rbrack] else [.IDENTIFIER n]
+  | v => [.IDENTIFIER (nameOf v)]
+
+def argSx : Val → Sx
+  | .int i => .int i
+  | .flt d => .flt d
+  | .qubit n src idx =>
+    if isItem n src idx then .list [.str "array_item", .str (nameOf src), refSx idx] else .str n
+  | v => .str (nameOf v)
+
+def okArg : Val → Bool
+  | .none => false
+  | .str _ => false
+  | _ => true
+
+/-- `statement.iterations != 1` decides whether the count of a subcircuit is written -/
+def subHead (it : Val) : List Tok := if itersNe1 it then [.SUBCIRCUIT, refTok it] else [.SUBCIRCUIT]
+def subCountSx (it : Val) : Sx := if itersNe1 it then refSx it else .str ""
+
+def openTok (par : Bool) : Tok := if par then .lt else .lbrace
+def closeTok (par : Bool) : Tok := if par then .gt else .rbrace
+def blockCmd (par : Bool) : String := if par then "parallel_block" else "sequential_block"
+
+mutual
+  /-- the tokens of one statement (without the newline that ends it) -/
+  def stmtToks : Stmt → List Tok
+    | .gate name _ args => .IDENTIFIER name :: argsToks args
+    | .loop cnt body =>
+      match body with
+      | .block par _ _ b => .LOOP :: refTok cnt :: openTok par :: .NL :: (itemsToks par b ++ [closeTok par])
+      | _ => []
+    | .block par sub it b =>
+      (if sub then subHead it else []) ++ openTok par :: .NL :: (itemsToks par b ++ [closeTok par])
+  /-- the lines inside a block of kind `par`, directly nested blocks of the same kind spliced -/
+  def itemsToks (par : Bool) : List Stmt → List Tok
+    | [] => []
+    | .block p false it b :: rest =>
+      if p = par then itemsToks par b ++ itemsToks par rest
+      else stmtToks (.block p false it b) ++ .NL :: itemsToks par rest
+    | s :: rest => stmtToks s ++ .NL :: itemsToks par rest
+  def argsToks : List (String × Val) → List Tok
+    | [] => []
+    | a :: as => argToks a.2 ++ argsToks as
+end
+
+mutual
+  def stmtSx : Stmt → Sx
+    | .gate name _ args => .list (.str "gate" :: .str name :: argsSx args)
+    | .loop cnt body =>
+      match body with
+      | .block par _ _ b => .list [.str "loop", refSx cnt, .list (.str (blockCmd par) :: itemsSx par b)]
+      | _ => .none
+    | .block par sub it b =>
+      if sub then .list (.str "subcircuit_block" :: subCountSx it :: itemsSx par b)
+      else .list (.str (blockCmd par) :: itemsSx par b)
+  def itemsSx (par : Bool) : List Stmt → List Sx
+    | [] => []
+    | .block p false it b :: rest =>
+      if p = par then itemsSx par b ++ itemsSx par rest
+      else stmtSx (.block p false it b) :: itemsSx par rest
+    | s :: rest => stmtSx s :: itemsSx par rest
+  def argsSx : List (String × Val) → List Sx
+    | [] => []
+    | a :: as => argSx a.2 :: argsSx as
+end
+
+mutual
+  /-- may this statement stand directly in a block of kind `par`? -/
+  def okStmt (par : Bool) : Stmt → Bool
+    | .gate _ _ args => okArgs args
+    | .loop cnt body =>
+      match body with
+      | .block p sub _ b => !par && okRef cnt && !sub && okItems p b
+      | _ => false
+    | .block p sub it b =>
+      if sub then !par && !p && okRef it && okItems false b
+      else (p != par) && okItems p b
+  def okItems (par : Bool) : List Stmt → Bool
+    | [] => true
+    | .block p false it b :: rest =>
+      if p = par then okItems par b && okItems par rest
+      else okStmt par (.block p false it b) && okItems par rest
+    | s :: rest => okStmt par s && okItems par rest
+  def okArgs : List (String × Val) → Bool
+    | [] => true
+    | a :: as => okArg a.2 && okArgs as
+end
+
+/-- a statement at the top level: anything allowed inside `{ }`, or a `{ }` block -/
+def okTop : Stmt → Bool
+  | .block false false _ b => okItems false b
+  | s => okStmt false s
+
+def modTok (m : String) : Tok :=
+  if m.toList.head? = some '.' then .DOTIDENTIFIER m else .IDENTIFIER m
+
+def usepulsesToks (u : String × String) : List Tok := [.FROM, modTok u.1, .USEPULSES, .star]
+def usepulsesSx (u : String × String) : Sx := .list [.str "usepulses", .str u.1, .str "*"]
+
+def letToks : Val → List Tok
+  | .const n (.int i) => [.LET, .IDENTIFIER n, .INT i]
+  | .const n (.flt d) => [.LET, .IDENTIFIER n, .NUMBER d]
+  | _ => []
+def letSx : Val → Sx
+  | .const n (.int i) => .list [.str "let", .str n, .int i]
+  | .const n (.flt d) => .list [.str "let", .str n, .flt d]
+  | _ => .none
+def okLet : Val → Bool
+  | .const _ (.int _) => true
+  | .const _ (.flt _) => true
+  | _ => false
+
+def regToks : Val → List Tok
+  | .regF n size => [.REG, .IDENTIFIER n, .lbrack, refTok size, .rbrack]
+  | _ => []
+def regSx : Val → Sx
+  | .regF n size => .list [.str "register", .str n, refSx size]
+  | _ => .none
+def okRegister : Val → Bool
+  | .regF _ (.int k) => decide (0 < k)
+  | .regF _ (.const _ _) => true
+  | _ => false
+
+/-- is the step written (`if s.step:`)? an int other than 0, or a let -/
+def okStep : Val → Bool
+  | .int k => k != 0
+  | .const _ _ => true
+  | _ => false
+
+def mapToks : Val → List Tok
+  | .qubit n src idx => [.MAP, .IDENTIFIER n, .IDENTIFIER (nameOf src), .lbrack, refTok idx, .rbrack]
+  | .regA n src => [.MAP, .IDENTIFIER n, .IDENTIFIER (nameOf src)]
+  | .regS n src a b c =>
+    .MAP :: .IDENTIFIER n :: .IDENTIFIER (nameOf src) :: .lbrack :: ([refTok a] ++ .colon :: ([refTok b] ++ ([.colon, refTok c] ++ [.rbrack])))
+  | _ => []
+def mapSx : Val → Sx
+  | .qubit n src idx => .list [.str "map", .str n, .str (nameOf src), refSx idx]
+  | .regA n src => .list [.str "map", .str n, .str (nameOf src)]
+  | .regS n src a b c => .list [.str "map", .str n, .str (nameOf src), refSx a, refSx b, refSx c]
+  | _ => .none
+def okMap : Val → Bool
+  | .qubit _ src idx => src.name?.isSome && okRef idx
+  | .regA _ src => src.name?.isSome
+  | .regS _ src a b c => src.name?.isSome && okRef a && okRef b && okRef c && okStep c
+  | _ => false
+
+def macroToks (m : Macro) : List Tok :=
+  match m.body with
+  | .block par _ _ b =>
+    .MACRO :: .IDENTIFIER m.name :: (m.params.map (fun p => Tok.IDENTIFIER p.1) ++ openTok par :: .NL :: (itemsToks par b ++ [closeTok par]))
+  | _ => []
+def macroSx (m : Macro) : Sx :=
+  match m.body with
+  | .block par _ _ b =>
+    .list (.str "macro" :: .str m.name :: (m.params.map (fun p => Sx.str p.1) ++ [.list (.str (blockCmd par) :: itemsSx par b)]))
+  | _ => .none
+def okMacro (m : Macro) : Bool :=
+  match m.body with
+  | .block par sub _ b => !sub && okItems par b
+  | _ => false
+
+def isFund : Val → Bool
+  | .regF _ _ => true
+  | _ => false
+
+/-- every line, each followed by the newline token that ends it -/
+def lines {α} (f : α → List Tok) : List α → List Tok
+  | [] => []
+  | x :: xs => f x ++ .NL :: lines f xs
+
+def headerToks (c : Circuit) : List Tok :=
+  lines usepulsesToks c.usepulses ++ lines letToks c.constants ++ lines regToks (c.registers.filter isFund)
+
+/-- the tokens of `gen c`: blank lines merge into the newline token before them; only when nothing precedes
+the unconditional blank line after the register section does it give a token of its own -/
+def toks (c : Circuit) : List Tok :=
+  (if (headerToks c).isEmpty then [.NL] else []) ++
+    (headerToks c ++ lines mapToks (c.registers.filter (fun r => !isFund r)) ++ lines macroToks c.macros ++
+      lines stmtToks c.body.stmts)
+
+/-- the S-expression of `gen c` -/
+def unbuild (c : Circuit) : Sx :=
+  .list (.str "circuit" ::
+    (c.usepulses.map usepulsesSx ++ c.constants.map letSx ++ (c.registers.filter isFund).map regSx ++
+      (c.registers.filter (fun r => !isFund r)).map mapSx ++ c.macros.map macroSx ++ c.body.stmts.map stmtSx))
+
+/-- every slot holds something Jaqal has syntax for -/
+def printable (c : Circuit) : Bool :=
+  c.usepulses.all (fun u => u.2 == "*") && c.constants.all okLet &&
+  c.registers.all (fun r => if isFund r then okRegister r else okMap r) &&
+  c.macros.all okMacro &&
+  (match c.body with
+   | .block _ _ _ b => b.all okTop
+   | _ => false)
+
+/-- The three layers evaluated on one text: (A) the parser model returns `unbuild c` on the token list `toks c`
+given any positions; (B) lexing `gen c` gives `toks c`; (C) building `unbuild c` gives a circuit `==` to `c` that
+generates the same text. -/
+structure Layers where
+  printable : Bool
+  layerA : Bool
+  layerB : Bool
+  layerC : Bool
+  deriving Repr, DecidableEq
+
+def layers (cfg : Config) (txt : String) : M Layers := do
+  let c ← parseProgram cfg txt
+  let t ← gen c
+  let a := match parse ((toks c).map (fun t => (⟨t, 1, 0⟩ : PTok))) with
+    | .ok sx => sx == unbuild c
+    | .error _ => false
+  let b := match lex t with
+    | .ok ts => ts.map (·.tok) == toks c
+    | .error _ => false
+  let cc := match parseBuild cfg (unbuild c) with
+    | .ok c' => circuitEq c c' && (match gen c' with | .ok t' => t' == t | .error _ => false)
+    | .error _ => false
+  pure { printable := printable c, layerA := a, layerB := b, layerC := cc }
+
 end Jaqal.Pipeline
